@@ -171,6 +171,7 @@ type cacheAPI struct {
 	proto string
 	ic    ipfix.MemCache
 	nc    netflow9.MemCache
+	rpc   *ipfix.IRPC // the one peer-lookup service object of the run (vFlow registers one per process)
 }
 
 func (c *cacheAPI) announce(k CacheKeyPlan, v int, seq uint32) {
@@ -253,7 +254,10 @@ func (c *cacheAPI) peer(k CacheKeyPlan) (int, string) {
 		return 0, ""
 	}
 	var tr ipfix.TemplateRecord
-	err := ipfix.NewRPC(c.ic).Get(ipfix.RPCRequest{ID: k.ID, IP: net.IP(append([]byte(nil), k.Addr...))}, &tr)
+	if c.rpc == nil {
+		c.rpc = ipfix.NewRPC(c.ic)
+	}
+	err := c.rpc.Get(ipfix.RPCRequest{ID: k.ID, IP: net.IP(append([]byte(nil), k.Addr...))}, &tr)
 	if err != nil {
 		return 0, err.Error()
 	}
@@ -353,6 +357,7 @@ func runCache(p *CachePlan, ch *simrt.Choices, trace bool) *cacheRun {
 	api := &cacheAPI{proto: p.Proto}
 	if p.Proto == pIPFIX {
 		api.ic = ipfix.GetCache("/none")
+		api.rpc = ipfix.NewRPC(api.ic)
 	} else {
 		api.nc = netflow9.GetCache("/none")
 	}
